@@ -552,6 +552,8 @@ var vpTemplates = []string{
 	/* 51 */ "local \x01, \x02, \x03 = \"p\", 1, 2\nlocal t = { [\x01 .. \"k\"] = 1, [\x02 + 1] = 2, [-\x03] = 3, [(\x04)] = 4, [#\x04] = 5, [not \x04] = 6 }\ng = t\n",
 	// re-assignment from a call that takes the old value: forward-declared locals, parameters, loop variables
 	/* 52 */ "local \x01\n\x01 = f(\x02)\nlocal function h(\x03, \x02)\n \x03 = g(\x03)\n \x02 = \x02:lower()\n for _, \x04 in ipairs(t) do\n  \x04 = trim(\x04)\n end\n return \x03, \x02\nend\n",
+	// constructor fields written without blanks: the value is a read of the local, the key is not an occurrence
+	/* 53 */ "local \x01 = 1\nlocal u = {\x01=\x01, \x02=\x01}\nt.\x01=\x01\ng = u\n",
 }
 
 // vpInstantiate fills the holes of template t with symbolic names; tag prefixes the variable names.
